@@ -67,9 +67,45 @@ def failed_fit_plan_st(draw, tier):
 
 
 @st.composite
+def boundary_params_plan_st(draw, tier):
+    """Hyper-parameters at the boundary of their documented range, where the value is falsy (l2_lambda=0, alpha=0,
+    epsilon=0): a copy must carry exactly these values, which shows once the copy builds something new from them - an
+    arm added after the copy was taken.  The data keep every arm's design regular (each arm sees the unit vectors)."""
+    arms = draw(st.sampled_from([[1, 2], [1, 2, 3], ["a", "b"]]))
+    new = 9 if isinstance(arms[0], int) else "z"
+    d = draw(st.integers(1, 2))
+    lp = draw(st.sampled_from([["LinUCB", {"alpha": 1, "l2_lambda": 0}], ["LinUCB", {"alpha": 0.5, "l2_lambda": 0}],
+                               ["LinGreedy", {"epsilon": 0, "l2_lambda": 0}], ["LinUCB", {"alpha": 0, "l2_lambda": 1}],
+                               ["LinUCB", {"alpha": 1, "l2_lambda": 0, "scale": False}]]))
+    units = [[1 if i == j else 0 for j in range(d)] for i in range(d)]
+
+    def block(arm_list):
+        dec, rew, cx = [], [], []
+        for a in arm_list:
+            rows = units + [[1] * d] + draw(gen.contexts_st(draw(st.integers(0, 2)), d, "int"))
+            dec += [a] * len(rows)
+            rew += draw(st.lists(st.integers(-5, 5), min_size=len(rows), max_size=len(rows)))
+            cx += [list(r) for r in rows]
+        return dec, rew, cx
+
+    cfg = {"arms": arms, "lp": lp, "np": None, "seed": draw(st.integers(0, 2 ** 16)), "n_jobs": 1, "backend": None,
+           "arm_kind": "int" if isinstance(arms[0], int) else "str"}
+    q = draw(gen.contexts_st(draw(st.integers(1, 3)), d, "int"))
+    prefix = [["fit"] + list(block(arms))]
+    if draw(st.booleans()):
+        prefix.append(["partial_fit"] + list(block(arms[:1])))
+    cont = [["add_arm", new], ["predict_expectations", q], ["policies"], ["partial_fit"] + list(block([new])),
+            ["predict_expectations", q], ["predict", q], ["cold_arms"]]
+    return {"config": cfg, "prefix": prefix, "cont": cont, "may_fail": True}
+
+
+@st.composite
 def any_plan_st(draw, tier):
-    if draw(st.integers(0, 15)) == 0:
+    k = draw(st.integers(0, 15))
+    if k == 0:
         return draw(failed_fit_plan_st(tier))
+    if k == 1:
+        return draw(boundary_params_plan_st(tier))
     return draw(plan_st(tier))
 
 
